@@ -495,3 +495,39 @@ _FULL_OLD = "    def choose_production_alternatives(self, ty: type, alternatives
 _FULL_NEW = "    def preferred_alternatives(self, fitting, budget, ctx):\n        if budget < 0:\n            return []\n        return [\n            x\n            for x in fitting\n            if (x in self.grammar.recursive_prods and self.grammar.get_distance_to_terminal(x) < budget)\n            or self.grammar.get_distance_to_terminal(x) == budget - %s\n        ]\n"
 M("C04", "twin-full-decider-template-method", INI, _GROW_OLD, _GROW_NEW, "", expect="silent", extra=[(INI, _FULL_OLD, _FULL_NEW % "1")])
 M("C04", "full-decider-template-method-frontier-two-below", INI, _GROW_OLD, _GROW_NEW, "C04.R3", extra=[(INI, _FULL_OLD, _FULL_NEW % "2")])
+
+# ---- round 6 rules: twins (the seeded changes of the round are the mutants)
+IND = "geneticengine/solutions/individual.py"
+_POP_OLD = "        item = lst.pop()\n        total_len = len(lst)\n\n        i = self.randint(0, total_len)\n        if i == total_len:\n            return item\n\n        lst[i], item = item, lst[i]\n\n        return item\n"
+M("C18", "twin-pop-random-swap-remove-guarded", SRC, _POP_OLD,
+  "        i = self.randint(0, len(lst) - 1)\n        last = lst.pop()\n        if i == len(lst):\n            return last\n        item = lst[i]\n        lst[i] = last\n        return item\n", "", expect="silent")
+M("C18", "pop-random-swap-remove-unguarded", SRC, _POP_OLD,
+  "        i = self.randint(0, len(lst) - 1)\n        item = lst[i]\n        lst[i] = lst.pop()\n        return item\n", "C18.R3")
+for _pid in ("C13", "C09"):
+    M(_pid, "twin-multi-objective-components-copied", PRB, "        multiple = [float(x) for x in lst]\n", "        multiple = list(map(float, lst))\n", "", expect="silent")
+    M(_pid, "multi-objective-components-aliased", PRB, "        multiple = [float(x) for x in lst]\n",
+      "        multiple = lst if isinstance(lst, list) else [float(x) for x in lst]\n", _pid + (".R3" if _pid == "C13" else ".R5"))
+_GS = "    def get_phenotype(self):\n        if self.phenotype is None:"
+M("C13", "twin-individual-getstate-keeps-program", IND, _GS,
+  "    def __getstate__(self):\n        return {\"genotype\": self.genotype, \"representation\": self.representation, \"phenotype\": self.phenotype, \"metadata\": self.metadata}\n\n"
+  "    def __setstate__(self, state):\n        self.__dict__.update(state)\n        self.fitness_store = weakref.WeakKeyDictionary()\n\n" + _GS, "", expect="silent")
+M("C13", "individual-getstate-drops-program", IND, _GS,
+  "    def __getstate__(self):\n        return {\"genotype\": self.genotype, \"representation\": self.representation, \"metadata\": self.metadata}\n\n"
+  "    def __setstate__(self, state):\n        self.__dict__.update(state)\n        self.fitness_store = weakref.WeakKeyDictionary()\n\n" + _GS, "C13.R2")
+_PP_OLD = "        is_best = False\n        if self.best_individual is None:\n            self.best_individual = individual\n            is_best = True\n        elif problem.is_better(individual.get_fitness(problem), self.best_individual.get_fitness(problem)):\n            self.best_individual = individual\n            is_best = True\n        else:\n            is_best = False\n"
+M("C12", "twin-post-process-improved-flag", TRK, _PP_OLD,
+  "        is_best = self.best_individual is None or problem.is_better(individual.get_fitness(problem), self.best_individual.get_fitness(problem))\n        if is_best:\n            self.best_individual = individual\n", "", expect="silent")
+M("C12", "post-process-flag-by-identity", TRK, _PP_OLD,
+  "        if self.best_individual is None or problem.is_better(individual.get_fitness(problem), self.best_individual.get_fitness(problem)):\n            self.best_individual = individual\n        is_best = individual is self.best_individual\n", "C12.R1")
+M("C12", "is-better-with-noise-tolerance", PRB, "        return a.maximizing_aggregate > b.maximizing_aggregate",
+  "        if abs(a.maximizing_aggregate - b.maximizing_aggregate) <= 1e-9 * max(abs(a.maximizing_aggregate), abs(b.maximizing_aggregate)):\n            return False\n        return a.maximizing_aggregate > b.maximizing_aggregate", "C12.R2")
+M("C12", "twin-is-better-two-returns", PRB, "        return a.maximizing_aggregate > b.maximizing_aggregate",
+  "        if a.maximizing_aggregate > b.maximizing_aggregate:\n            return True\n        return False", "", expect="silent")
+_MD_INIT = "        self.max_depth = max_depth\n        self.validate()\n"
+_MD_HELP = "\n    def distance_to_terminal(self, ty: type) -> int:\n        if ty not in self._distances:\n            self._distances[ty] = self.grammar.get_distance_to_terminal(ty)\n        return self._distances[ty]\n\n    def choose_production_alternatives(self, ty: type, alternatives: list[type], ctx: LocalSynthesisContext) -> type:\n        assert len(alternatives) > 0, \"No alternatives presented\"\n        alternatives = [\n            x for x in alternatives if self.distance_to_terminal(x) <= (self.max_depth - ctx.depth)\n        ]\n"
+_MD_ANCH = "\n    def choose_production_alternatives(self, ty: type, alternatives: list[type], ctx: LocalSynthesisContext) -> type:\n        assert len(alternatives) > 0, \"No alternatives presented\"\n        alternatives = [\n            x for x in alternatives if self.grammar.get_distance_to_terminal(x) <= (self.max_depth - ctx.depth)\n        ]\n"
+for _pid in ("C10", "C07"):
+    M(_pid, "twin-decider-distance-memo-on-a-copy", INI, _MD_INIT, "        self.max_depth = max_depth\n        self._distances = dict(grammar.distanceToTerminal)\n        self.validate()\n", "",
+      expect="silent", extra=[(INI, _MD_ANCH, _MD_HELP)])
+M("C10", "decider-distance-memo-on-the-grammar-table", INI, _MD_INIT, "        self.max_depth = max_depth\n        self._distances = grammar.distanceToTerminal\n        self.validate()\n", "C10.R1",
+  extra=[(INI, _MD_ANCH, _MD_HELP)])
